@@ -228,6 +228,20 @@ vecp_t verif_vec_self_assign(nm_size_t n, nm_size_t i, nm_size_t x)
     vecp_t p = { v.size(), (i < n) ? v[i] : x, 0, 0 };
     return p;
 }
+// push_back of an element of the vector itself: std::vector supports v.push_back(v[0]) even when it reallocates
+vecp_t verif_vec_push_alias(nm_size_t k, nm_size_t x)
+{
+    vec_t v;
+    v.push_back(x);
+    if (k >= 2) { v.push_back(x + 1); }
+    if (k >= 3) { v.push_back(x + 2); }
+    if (k >= 4) { v.push_back(x + 3); }
+    if (k >= 5) { v.push_back(x + 4); }
+    if (k >= 6) { v.push_back(x + 5); }
+    v.push_back(v[0]);
+    vecp_t p = { v.size(), v[v.size() - 1], v[0], 0 };
+    return p;
+}
 // v = v on an arbitrary vector (contract in contracts/c19.spec)
 void verif_vecop_self_assign(vec_t& v) { v = v; }
 // vector(0) that is grown afterwards: push_back reallocates and releases the zero-byte block
